@@ -134,6 +134,12 @@ def shrink(mod, scenario, oracle, budget_execs=400, budget_s=25.0):
             except BaseException:
                 continue
             if r['verdict'] == 'violation' and r['oracle'] == oracle:
+                if hasattr(mod, 'confirm'):
+                    try:
+                        if not mod.confirm(r.get('case', cand), r):
+                            continue
+                    except BaseException:
+                        continue
                 cur = r.get('case', cand)
                 improved = True
                 break
